@@ -104,6 +104,7 @@ def cases(draw, tier, wide=False):
         "ns_small": draw(st.integers(1, max(1, 2 ** n - 1))),
         "ns_large": draw(st.integers(2 ** n + 1, (4 * 2 ** n + 3) if not wide else 2 ** n + 40)),
         "zterms": zterms, "gterms": gterms,
+        "ns_huge": draw(st.sampled_from([None, None, None, 4096, 5000, 10000, 70000])) if not wide else None,
     }
 
 
@@ -182,7 +183,10 @@ def oracle(spec):
     require(abs(ge - gref) <= 1e-9 * gscale, lambda: f"expectation of {gop!r} is {ge}, quadratic form gives {gref}")
 
     dq = [q for q in range(n) if det[q] is not None]
-    for regime, ns in (("small", spec["ns_small"]), ("large", spec["ns_large"])):
+    regimes = [("small", spec["ns_small"]), ("large", spec["ns_large"])]
+    if spec.get("ns_huge"):
+        regimes.append(("thousands", spec["ns_huge"]))
+    for regime, ns in regimes:
         m = must(lambda: sim.run_and_measure(c, ns), f"run_and_measure({ns})")
         require(len(m.bitstrings) == ns, lambda: f"{regime}: {len(m.bitstrings)} shots returned for {ns}")
         for b in m.bitstrings:
@@ -219,7 +223,7 @@ def oracle(spec):
                 require(abs(ex - sum(want)) <= 1e-9 * 10, lambda: f"exact expectation {ex} of {op!r} != {sum(want)}")
     pattern = [det[q] for q in range(n)]
     nontrivial = n >= 2 and any(x is not None for x in pattern) and pattern != pattern[::-1]
-    cl = ["small_sample_branch", "large_sample_branch"]
+    cl = ["small_sample_branch", "large_sample_branch"] + (["thousands_of_samples"] if spec.get("ns_huge") else [])
     if any(len(o["q"]) == 2 for o in spec["ops"]):
         cl.append("entangled")
     if any(len(o["q"]) == 3 for o in spec["ops"]):
